@@ -69,3 +69,21 @@ func VerifLatch() (cached, latch bool) {
 	defer globalGocriticMu.Unlock()
 	return globalGocritic != nil, globalInitErrorReported
 }
+
+// VerifSnapshot renders the cached configuration (every field of the cached value, the
+// names of its checkers and their parameter values); "" when nothing is cached.
+func VerifSnapshot() string {
+	globalGocriticMu.Lock()
+	defer globalGocriticMu.Unlock()
+	if globalGocritic == nil {
+		return ""
+	}
+	s := fmt.Sprintf("%+v", *globalGocritic)
+	for _, info := range globalGocritic.infoList {
+		s += "\n" + info.Name
+		for name, p := range info.Params {
+			s += fmt.Sprintf(" %s=%v", name, p.Value)
+		}
+	}
+	return s
+}
